@@ -150,6 +150,7 @@ func init() {
 		rows, pairs = noReset(rows), noReset(pairs)
 		var scns []fw.Scenario
 		scns = append(scns, c09ContextReset())
+		scns = append(scns, c09CallbackContexts(tier)...)
 		var ctxWithValue cat.Row
 		for _, r := range rows {
 			if r.Name == "ContextWithValue" {
